@@ -17,6 +17,15 @@ def rotation_from_up_and_look(up, look):
 
     up, look = [np.asarray(vector, dtype=np.float64) for vector in (up, look)]
 
+    # Scale each vector by a power of two so that its largest component is in
+    # [0.5, 1). Only the directions of `up` and `look` matter, so the result is
+    # unchanged (bit for bit, for vectors of ordinary length), but squaring the
+    # components while taking norms can no longer overflow or underflow.
+    up, look = [
+        np.ldexp(vector, -np.frexp(np.max(np.abs(vector)))[1])
+        for vector in (up, look)
+    ]
+
     if np.linalg.norm(up) == 0:
         raise ValueError("Singular up")
     if np.linalg.norm(look) == 0:
